@@ -1,5 +1,6 @@
-(* C14 model runner: SEQUENTIAL schedules.  Input: "scn id" / "sess si user" / "topic k owner" /
-   "op kind si rid k arg" / "op unload k" / "end"; each client request is one client step of
+(* C14 model runner: SEQUENTIAL schedules.  Input: "scn id" / "sess si user" / "topic k owner [ischan]" /
+   "op kind si rid k arg [grp|chn]" / "op unload k" / "end" (ischan: the topic has channel functionality;
+   grp|chn: the name form the client wrote); each client request is one client step of
    Lifecycle.exec followed by Lifecycle.settle (internal steps in a fixed order until none is
    enabled).  Output per op: new outbox entries per session and the attachment state, in the
    vocabulary of the Go driver's output (tools/props/c14.py compares them). *)
@@ -8,6 +9,7 @@ open Lifecycle
 
 let users : (int * int) list ref = ref []
 let owners : (int * int) list ref = ref []
+let chans : int list ref = ref []
 let cfg : config option ref = ref None
 let seen : (int * int) list ref = ref []      (* session -> outbox entries already printed *)
 let ridmap : (int * string) list ref = ref [] (* model rid -> scenario rid *)
@@ -17,7 +19,7 @@ let n = nat_of_int
 let i = int_of_nat
 let code_num = function
   | COk -> 200 | CAlready -> 304 | CNotJoined -> 304 | CAttachFirst -> 409 | CLocked -> 503
-  | CNotFound -> 404 | CDenied -> 403 | CNoAction -> 304 | CEvicted -> 205
+  | CNotFound -> 404 | CDenied -> 403 | CNoAction -> 304 | CEvicted -> 205 | CUseOther -> 303
 
 let sids () = List.sort compare (List.map fst !users)
 let tids () = List.sort compare (List.map fst !owners)
@@ -26,7 +28,8 @@ let start () =
   let user s = n (try List.assoc (i s) !users with Not_found -> 0) in
   let owner t = n (try List.assoc (i t) !owners with Not_found -> 0) in
   let stored t = List.mem_assoc (i t) !owners in
-  cfg := Some (init_config stored owner user)
+  let ischan t = List.mem (i t) !chans in
+  cfg := Some (init_config stored owner user ischan)
 
 let get () = (match !cfg with None -> start () | Some _ -> ()); (match !cfg with Some c -> c | None -> assert false)
 
@@ -51,7 +54,9 @@ let emit (c : config) =
       | Some j ->
         let y = c.c_inst j in
         (match y.i_phase with
-         | PRun -> List.iter (fun s -> Buffer.add_string buf (Printf.sprintf "att %d %d\n" t (i s))) y.i_sessions
+         | PRun ->
+           List.iter (fun s -> Buffer.add_string buf (Printf.sprintf "att %d %d\n" t (i s))) y.i_sessions;
+           List.iter (fun s -> if mem s y.i_sessions then Buffer.add_string buf (Printf.sprintf "catt %d %d\n" t (i s))) y.i_chansub
          | _ -> ());
         1
       | None -> 0 in
@@ -71,9 +76,12 @@ let flush_out () = let s = Buffer.contents buf in Buffer.clear buf;
 
 let handle (w : string list) : string =
   match w with
-  | ["scn"; id] -> users := []; owners := []; cfg := None; seen := []; ridmap := []; "scn " ^ id
+  | ["scn"; id] -> users := []; owners := []; chans := []; cfg := None; seen := []; ridmap := []; "scn " ^ id
   | ["sess"; s; u] -> users := (int_of_string s, int_of_string u) :: !users; "ok"
   | ["topic"; k; o] -> owners := (int_of_string k, int_of_string o) :: !owners; "ok"
+  | ["topic"; k; o; ch] ->
+    owners := (int_of_string k, int_of_string o) :: !owners;
+    if ch = "1" then chans := int_of_string k :: !chans; "ok"
   | ["op"; "unload"; k] ->
     let c = get () in
     Buffer.add_string buf "op\n";
@@ -81,12 +89,13 @@ let handle (w : string list) : string =
      | Some j -> (match exec (IdleTimeout j) c with Some c' -> cfg := Some (settle_all c') | None -> ())
      | None -> ());
     emit (get ()); flush_out ()
-  | ["op"; kind; s; rid; k; arg] ->
+  | ["op"; kind; s; rid; k; arg] | ["op"; kind; s; rid; k; arg; _] ->
+    let ch = (match w with [_; _; _; _; _; _; f] -> f = "chn" | _ -> false) in
     let s = n (int_of_string s) and k = n (int_of_string k) in
     Buffer.add_string buf "op\n";
     (match kind with
-     | "sub" -> client (ClientSub (s, k)) rid
-     | "leave" -> client (ClientLeave (s, k, arg = "1")) rid
+     | "sub" -> client (ClientSub (s, k, ch)) rid
+     | "leave" -> client (ClientLeave (s, k, arg = "1", ch)) rid
      | "deltopic" -> client (ClientDel (s, k)) rid
      | "disc" ->
        let c = get () in
